@@ -382,7 +382,90 @@ fn same(v: &V, j: &J) -> bool {
     }
 }
 
+/// civil date of a day count since 1970-01-01 (proleptic Gregorian; Howard Hinnant's algorithm)
+fn civil(days: i64) -> (i64, u32, u32) {
+    let z = days + 719468;
+    let era = z.div_euclid(146097);
+    let doe = z.rem_euclid(146097);
+    let yoe = (doe - doe / 1460 + doe / 36524 - doe / 146096) / 365;
+    let doy = doe - (365 * yoe + yoe / 4 - yoe / 100);
+    let mp = (5 * doy + 2) / 153;
+    let d = (doy - (153 * mp + 2) / 5 + 1) as u32;
+    let m = if mp < 10 { mp + 3 } else { mp - 9 } as u32;
+    (yoe + era * 400 + if m <= 2 { 1 } else { 0 }, m, d)
+}
+
+fn iso(ms: i64) -> String {
+    let (days, rem) = (ms.div_euclid(86_400_000), ms.rem_euclid(86_400_000));
+    let (y, m, d) = civil(days);
+    let (h, mi, s, milli) = (rem / 3_600_000, rem / 60_000 % 60, rem / 1000 % 60, rem % 1000);
+    if milli == 0 {
+        format!("{:04}-{:02}-{:02}T{:02}:{:02}:{:02}Z", y, m, d, h, mi, s)
+    } else {
+        format!("{:04}-{:02}-{:02}T{:02}:{:02}:{:02}.{:03}Z", y, m, d, h, mi, s, milli)
+    }
+}
+
+/// `timeslice(t) d` = the latest multiple of d since the Unix epoch that is not after t — for
+/// instants on both sides of the epoch, inside a slice and exactly on a boundary
+fn check_timeslice(ctx: &mut Ctx) {
+    const DURS: &[(&str, i64)] = &[("1s", 1000), ("30s", 30_000), ("1m", 60_000), ("1m30s", 90_000), ("5m", 300_000), ("15m", 900_000), ("1h", 3_600_000), ("6h", 21_600_000), ("1d", 86_400_000), ("1w", 604_800_000), ("250ms", 250)];
+    let n = ctx.budget(400, 20000);
+    for _ in 0..n {
+        let mut r = ctx.rng.fork();
+        let (dtxt, dms) = *r.pick(DURS);
+        let mut input = vec![];
+        let nrows = 1 + r.below(6);
+        for i in 0..nrows {
+            // 1902 … 2037, half of them before 1970
+            let base = r.range(0, 2_140_000_000) * 1000 * if r.chance(50) { -1 } else { 1 };
+            let t = match r.below(4) {
+                0 => base.div_euclid(dms) * dms,           // exactly on a boundary
+                1 => base.div_euclid(dms) * dms + dms - 1, // last millisecond of a slice
+                2 => base.div_euclid(dms) * dms + 1,
+                _ => base + r.range(0, 999),
+            };
+            let want = t.div_euclid(dms) * dms;
+            input.extend(format!("{{\"id\":{},\"ts\":\"{}\",\"want\":\"{}\"}}\n", i, iso(t), iso(want)).into_bytes());
+        }
+        let q = format!("* | json | timeslice(parseDate(ts)) {} as s | parseDate(want) as w | fields id, s, w", dtxt);
+        let key = ckey(&q, &input);
+        let info = serde_json::json!({"query": q, "input": String::from_utf8_lossy(&input)});
+        let c = run_both(ctx, &q, &input);
+        if !c.imp.compiled || c.imp.panicked.is_some() || c.imp.hung {
+            ctx.case("timeslice", &key, "viol", serde_json::json!({"class": "", "what": "timeslice query did not run", "panic": c.imp.panicked, "compile_err": c.imp.compile_err, "case": info}));
+            continue;
+        }
+        let out = canon::normalized_lines(&c.imp.stdout).unwrap_or_default();
+        let mut problem: Option<String> = None;
+        if out.len() != nrows {
+            problem = Some(format!("{} rows out of {} lines", out.len(), nrows));
+        }
+        for row in &out {
+            if let J::Obj(kvs) = row {
+                let get = |k: &str| kvs.iter().find(|kv| kv.0 == k).map(|kv| kv.1.clone());
+                if get("s").is_none() || get("s") != get("w") {
+                    problem = Some(format!("row {:?}: slice start {:?}, the latest multiple of {} not after the instant is {:?}", get("id"), get("s"), dtxt, get("w")));
+                }
+            }
+        }
+        match problem {
+            Some(w) => {
+                ctx.case("timeslice", &key, "viol", serde_json::json!({"class": "", "what": w, "got": String::from_utf8_lossy(&c.imp.stdout), "case": info}));
+                continue;
+            }
+            None => ctx.case("timeslice", &key, "pass", info.clone()),
+        }
+        match compare(&c, true) {
+            F::Agree => ctx.case("model", &key, "pass", info),
+            F::Skip(w) => ctx.case("model", "", "skip", serde_json::json!({"why": w.split(':').next().unwrap_or("").to_string()})),
+            F::Disagree(d) => ctx.case("model", &key, "fdis", serde_json::json!({"what": d, "case": info})),
+        }
+    }
+}
+
 pub fn check(ctx: &mut Ctx) {
+    check_timeslice(ctx);
     let n = ctx.budget(4000, 200000);
     for _ in 0..n {
         let mut r = ctx.rng.fork();
